@@ -8,7 +8,7 @@ EXPLANATION = ("For gix-worktree-stream's private pipe protocol: mode_to_byte/by
                "from their MIR switches and must be mutually inverse and total over the enum; the reader's header buffer length equals the "
                "writer's HEADER_LEN; both sides put path length in the first usize slot, stream length in the second, mode in byte 0 and hash kind "
                "in byte 1 (provenance of the split_at results); the chunk-length prefix of write_stream is a u16 and its buffer is capped at "
-               "u16::MAX on every path to a read (must-pass through the Ok edge of clear_and_set_len(buf, BUF_LEN)); in gix_archive::write every io::copy into the shared scratch "
+               "u16::MAX on every path to a read (must-pass through the Ok edge of clear_and_set_len(buf, BUF_LEN)); in gix_archive::write every appending call (io::copy, read_to_end, extend, write_all, push) into the shared scratch "
                "buffer is preceded by a clear() of it on every path (sibling agreement of the tar and zip writers). Equality of archive contents with `git archive` is not decided.")
 P = "gix_worktree_stream::protocol::"
 
@@ -153,15 +153,21 @@ def archive_buffer_rule(db, chk):
     for f in fns:
         fl = Flow(f)
         bufs = [i for i in range(1, f.argc + 1) if "Vec<u8>" in f.locals[i] and f.locals[i].startswith("&mut")]
-        for c in f.calls_to(r"io::copy::copy$|std::io::copy$"):
-            dst = {r[1] for r in fl.roots(c.args[1], stop_named=False) if r[0] == "arg"}
+        # everything that APPENDS to a Vec<u8>: io::copy into it, Read::read_to_end(&mut buf), extend/extend_from_slice/push, Write::write_all on it
+        APPEND = ((r"io::copy::copy$|std::io::copy$", 1), (r"Read>?::read_to_end$|::read_to_end$|Read>?::read_to_string$", 1),
+                  (r"Vec::<T, A>::extend_from_slice$|Vec<T, A>>::extend_from_slice$|Extend<.*>>::extend$|Vec::<T, A>::push$|Write>?::write_all$|Write>?::write$", 0))
+        for c in f.calls():
+            slot = next((i for pat, i in APPEND if c.is_(pat)), None)
+            if slot is None or len(c.args) <= slot:
+                continue
+            dst = {r[1] for r in fl.roots(c.args[slot], stop_named=False) if r[0] == "arg"}
             hit = [b for b in bufs if b in dst]
             if not hit:
                 continue
             n += 1
             clears = [x for x in f.calls_to(r"Vec::<T, A>::clear$|Vec<T, A>>::clear$|::clear$") if {r[1] for r in fl.roots(x.args[0], stop_named=False) if r[0] == "arg"} & set(hit)]
             ok = bool(clears) and c.block not in f.reach_from(0, avoid=[x.block for x in clears])
-            chk.ob("scratch-buffer-cleared-before-reuse", "%s io::copy@%d" % (f.name.split("::")[-1], c.line), ok,
+            chk.ob("scratch-buffer-cleared-before-reuse", "%s %s@%d" % (f.name.split("::")[-1], c.name.split("::")[-1], c.line), ok,
                    "an entry's bytes are appended to the shared scratch buffer without clearing it first: the second such entry of an archive carries the first one's bytes as well",
                    c.where(), key="scratch-clear|%s" % f.name.split("::")[-1])
     chk.floor("copies into the shared scratch buffer", n, 2)
